@@ -11,8 +11,10 @@ type vCache struct{ m map[string]interface{} }
 func (c *vCache) Get(k string) (interface{}, bool) { v, ok := c.m[k]; return v, ok }
 func (c *vCache) Set(k string, v interface{})      { c.m[k] = v }
 
-func vWorldSmall() *vWorld {
-	vUseURLSet(0)
+func vWorldSmall() *vWorld { return vWorldSmallIn(0) }
+
+func vWorldSmallIn(set int) *vWorld {
+	vUseURLSet(set)
 	kp := vChoose(vParam("kwpos", 2), "kwpos")
 	ts := []vTarget{{doc: vURoot, frag: "/definitions/A", single: true}, {doc: vURoot, frag: "/definitions/B"}, {doc: vUSub, frag: "/definitions/C%20d"}, {doc: vUFar, frag: "/definitions/D", single: true},
 		{doc: vUFar + "?rev=2", frag: "/definitions/D", single: true}} // same document, spelled with a query
